@@ -9,7 +9,7 @@ from typing import Dict, List, Optional, Set, Tuple
 from .core import AnalysisError, Report
 from .emit import Folder, Slot, Tpl
 from .prog import (ClassInfo, Program, bind_call, clone_expr, dotted, enclosing, func_params, guards_of, inline_locals,
-                   local_assignments, parent, stmt_of, unparse, walk_no_nested)
+                   local_assignments, parent, stmt_of, unparse, value_def, walk_no_nested)
 
 MW = "gtwrap/matlab_wrapper/wrapper.py"
 
@@ -548,7 +548,126 @@ def _pkg_norm(fn, e: ast.AST) -> str:
     return out
 
 
+class _PathEval:
+    """Evaluates a path-building expression of the MATLAB wrapper on a *sample* namespace list (the analyser's own
+    interpreter over strings and lists; no repository code runs): `<x>.full_namespaces()` / `<x>.namespaces()` stand for
+    the sample list, `<x>.name` for the sample class name; locals are read through their definitions."""
+
+    class Unknown(Exception):
+        pass
+
+    def __init__(self, fn, ns: List[str], cls_name: str = "K", prog=None, ci=None, depth=2):
+        self.fn, self.ns, self.cls_name, self.prog, self.ci, self.depth = fn, ns, cls_name, prog, ci, depth
+
+    def param_values(self, name: str) -> list:
+        """What the callers inside the class pass for a parameter, evaluated on the sample (the default where a caller
+        passes nothing): one value per distinct caller context."""
+        if self.prog is None or self.ci is None or self.depth <= 0 or name not in func_params(self.fn):
+            raise self.Unknown(f"parameter {name}")
+        a_ = self.fn.args
+        pos = [x.arg for x in a_.posonlyargs + a_.args]
+        defaults = dict(zip(pos[len(pos) - len(a_.defaults):], a_.defaults))
+        vals = []
+        for k in self.prog.mro(self.ci):
+            for g in k.methods.values():
+                for c in walk_no_nested(g):
+                    if isinstance(c, ast.Call) and isinstance(c.func, ast.Attribute) and c.func.attr == self.fn.name and unparse(c.func.value) == "self":
+                        try:
+                            b = bind_call(self.fn, c, drop_self=True)
+                        except AnalysisError:
+                            raise self.Unknown(f"parameter {name}")
+                        if name in b:
+                            v = _PathEval(g, self.ns, self.cls_name, self.prog, self.ci, self.depth - 1).ev(b[name])
+                        elif name in defaults:
+                            v = self.ev(defaults[name])
+                        else:
+                            raise self.Unknown(f"parameter {name}")
+                        if v not in vals:
+                            vals.append(v)
+        if not vals:
+            raise self.Unknown(f"parameter {name}")
+        return vals
+
+    def ev(self, e, env=None):
+        env = env or {}
+        if isinstance(e, ast.Constant) and isinstance(e.value, (str, int)) or (isinstance(e, ast.Constant) and e.value is None):
+            return e.value
+        if isinstance(e, ast.Name):
+            if e.id in env:
+                return env[e.id]
+            v = _combine_defs(self.fn, e)
+            if v is e:
+                v = value_def(self.fn, e.id)
+            if v is None and any(x is e for x in ast.walk(self.fn)):
+                # bound in several branches: the one binding that reaches this read
+                from .rules_alias import reaching_defs
+                defs, _ = reaching_defs(self.fn, e.id, e)
+                if len(defs) == 1 and isinstance(defs[0], ast.Assign) and len(defs[0].targets) == 1 and isinstance(defs[0].targets[0], ast.Name):
+                    v = defs[0].value
+            if v is None:
+                raise self.Unknown(f"parameter {e.id}" if e.id in func_params(self.fn) else f"name {e.id}")
+            return self.ev(v, env)
+        if isinstance(e, ast.Attribute) and e.attr == "name":
+            return self.cls_name
+        if isinstance(e, ast.Call) and isinstance(e.func, ast.Attribute) and e.func.attr in ("full_namespaces", "namespaces") and not e.args:
+            return list(self.ns)
+        if isinstance(e, ast.Call) and isinstance(e.func, ast.Attribute) and e.func.attr == "join" and len(e.args) == 1:
+            sep, items = self.ev(e.func.value, env), self.ev(e.args[0], env)
+            if not isinstance(sep, str) or not isinstance(items, list) or not all(isinstance(x, str) for x in items):
+                raise self.Unknown("join of non-strings")
+            return sep.join(items)
+        if isinstance(e, ast.Call) and isinstance(e.func, ast.Name) and e.func.id in ("list", "tuple", "str") and len(e.args) == 1:
+            v = self.ev(e.args[0], env)
+            return str(v) if e.func.id == "str" else list(v)
+        if isinstance(e, ast.Call) and isinstance(e.func, ast.Name) and e.func.id == "len" and len(e.args) == 1:
+            return len(self.ev(e.args[0], env))
+        if isinstance(e, (ast.ListComp, ast.GeneratorExp)) and len(e.generators) == 1 and isinstance(e.generators[0].target, ast.Name):
+            g = e.generators[0]
+            out = []
+            for item in self.ev(g.iter, env):
+                env2 = dict(env, **{g.target.id: item})
+                if all(self.ev(c, env2) for c in g.ifs):
+                    out.append(self.ev(e.elt, env2))
+            return out
+        if isinstance(e, ast.JoinedStr):
+            out = ""
+            for v in e.values:
+                out += v.value if isinstance(v, ast.Constant) else str(self.ev(v.value, env))
+            return out
+        if isinstance(e, ast.BinOp) and isinstance(e.op, ast.Add):
+            l, r = self.ev(e.left, env), self.ev(e.right, env)
+            if type(l) is not type(r):
+                raise self.Unknown("+ of different kinds")
+            return l + r
+        if isinstance(e, ast.BinOp) and isinstance(e.op, ast.Sub):
+            return self.ev(e.left, env) - self.ev(e.right, env)
+        if isinstance(e, ast.UnaryOp) and isinstance(e.op, ast.USub):
+            return -self.ev(e.operand, env)
+        if isinstance(e, ast.Subscript):
+            base = self.ev(e.value, env)
+            if isinstance(e.slice, ast.Slice):
+                lo = self.ev(e.slice.lower, env) if e.slice.lower is not None else None
+                hi = self.ev(e.slice.upper, env) if e.slice.upper is not None else None
+                st = self.ev(e.slice.step, env) if e.slice.step is not None else None
+                return base[lo:hi:st]
+            i = self.ev(e.slice, env)
+            try:
+                return base[i]
+            except Exception:
+                raise self.Unknown("index out of range")
+        if isinstance(e, ast.Compare) and len(e.ops) == 1 and isinstance(e.ops[0], (ast.Eq, ast.NotEq)):
+            l, r = self.ev(e.left, env), self.ev(e.comparators[0], env)
+            return (l == r) if isinstance(e.ops[0], ast.Eq) else (l != r)
+        if isinstance(e, ast.IfExp):
+            return self.ev(e.body, env) if self.ev(e.test, env) else self.ev(e.orelse, env)
+        raise self.Unknown(f"{type(e).__name__} `{unparse(e)[:40]}`")
+
+
 def rule_package_paths(ctx, rep: Report, rid="T3", min_sites=4):
+    """Every kind of entity (class, namespace-level enum, free function, class-scoped enum) is filed under the package
+    folder of its namespace: `+a/+b/+c` for the namespace path ['', a, b, c] (plus `/+<Class>` for an enum of a class).
+    Each path-building expression is evaluated by the analyser on sample namespace lists of depth 1 and 3 - depth 3
+    tells a leaf-only or separator-less spelling from the right one, which depth 1 cannot."""
     ci, prog = mw(ctx)
     sites = []
     for mname in ("wrap_namespace", "wrap_methods", "wrap_instantiated_class"):
@@ -560,29 +679,39 @@ def rule_package_paths(ctx, rep: Report, rid="T3", min_sites=4):
     n = 0
     for mname, fn, c, pathx in sites:
         n += 1
-        norm = _pkg_norm(fn, pathx)
         kind = "class-scoped enum" if mname == "wrap_instantiated_class" else (
             "global function" if mname == "wrap_methods" else ("class" if "class_text" in unparse(c) or "wrap_instantiated_class" in unparse(inline_locals(fn, c.args[0].elts[1])) else "namespace enum"))
-        if mname == "wrap_instantiated_class":
-            t = ast.parse(norm, mode="eval").body
-            ok = False
-            if isinstance(t, ast.BinOp) and isinstance(t.op, ast.Add):
-                left = unparse(t.left).replace("_NS.namespaces()", "_NS.full_namespaces()")
-                right = t.right
-                ok_left = left in ("''.join(['+' + _x + '/' for _x in _NS.full_namespaces()[1:]])",
-                                   "''.join(('+' + _x + '/' for _x in _NS.full_namespaces()[1:]))")
-                ok_right = isinstance(right, ast.JoinedStr) and "".join(
-                    v.value if isinstance(v, ast.Constant) else "@" for v in right.values) == "+@" and \
-                    unparse(right.values[1].value).endswith(".name")
-                ok = ok_left and ok_right
-            want = "<package path of the namespace> + '+<Class>'"
-        else:
-            ok = norm == PKG_FORM
-            want = PKG_FORM
-        rep.add(rid, f"package path:{kind} ({mname})", ok,
-                f"the folder path is computed as `{norm[:110]}`; every kind of entity must be placed by the same rule "
-                f"{want}: joining namespace names without '/+' puts `a::b::C::K` into +ab/+C instead of +a/+b/+C",
-                f"{ci.mod.rel}:{c.lineno}")
+        got, want, err = [], [], None
+        for sample in (["", "A"], ["", "A", "B", "C"]):
+            w = "/".join("+" + x for x in sample[1:]) + ("/+K" if mname == "wrap_instantiated_class" else "")
+            want.append(w)
+            pe = _PathEval(fn, sample, prog=prog, ci=ci)
+            # a parameter the value really depends on stands for what the callers in the class pass: one evaluation per context
+            envs = [{}]
+            try:
+                for _ in range(4):
+                    try:
+                        outs = []
+                        for e_ in envs:
+                            o_ = pe.ev(pathx, e_)
+                            if o_ not in outs:
+                                outs.append(o_)
+                        got.append(outs[0] if len(outs) == 1 else outs)
+                        break
+                    except _PathEval.Unknown as ex:
+                        m_ = re.fullmatch(r"parameter (\w+)", str(ex))
+                        if not m_ or any(m_.group(1) in e_ for e_ in envs):
+                            raise
+                        envs = [dict(e_, **{m_.group(1): v_}) for e_ in envs for v_ in pe.param_values(m_.group(1))]
+            except _PathEval.Unknown as ex:
+                err = str(ex)
+                break
+        if err is not None:
+            raise AnalysisError(f"{ci.mod.rel}:{c.lineno}: package path `{unparse(pathx)[:60]}` is built in a way this rule cannot evaluate ({err})")
+        rep.add(rid, f"package path:{kind} ({mname})", got == want,
+                f"for the namespace paths ['', A] and ['', A, B, C] the folder is {got}, every kind of entity must be placed in {want}: a leaf-only or "
+                f"separator-less path files `a::b::c::K` somewhere else than the classes of the same namespace (the folder of a scope is taken from "
+                f"its first entry, so the neighbours move with it)", f"{ci.mod.rel}:{c.lineno}")
     if n < min_sites:
         raise AnalysisError(f"{rep.prop}/{rid}: {n} package-path sites, {min_sites} expected")
 
